@@ -24,7 +24,7 @@ def scratch():
     """Per-process scratch root on tmpfs, removed at exit."""
     global _scratch
     if _scratch is None or _scratch[0] != os.getpid():
-        base = '/dev/shm' if os.path.isdir('/dev/shm') and os.access('/dev/shm', os.W_OK) else tempfile.gettempdir()
+        base = os.environ.get('VERIF_SCRATCH') or ('/dev/shm' if os.path.isdir('/dev/shm') and os.access('/dev/shm', os.W_OK) else tempfile.gettempdir())
         d = tempfile.mkdtemp(prefix='verif-%d-' % os.getpid(), dir=base)
         _scratch = (os.getpid(), d)
         atexit.register(_rm, os.getpid(), d)
@@ -126,3 +126,20 @@ class Ctx:
             len(self.viol), len(self.known_hit), wall,
             {k: v for k, v in cov.items() if isinstance(v, (int, bool))}))
         return 1 if self.viol else 0
+
+
+def cleanup_semaphores(t0):
+    """SIGKILLed Bob processes leak multiprocessing semaphores in /dev/shm; remove those created since t0."""
+    n = 0
+    try:
+        for f in os.listdir('/dev/shm'):
+            if f.startswith('sem.mp-'):
+                p = os.path.join('/dev/shm', f)
+                try:
+                    if os.stat(p).st_mtime >= t0 - 1:
+                        os.unlink(p); n += 1
+                except OSError:
+                    pass
+    except OSError:
+        pass
+    return n
